@@ -204,6 +204,27 @@ func main() {
 				}
 			}
 		}
+		if *tier == "thorough" && filter == nil {
+			st := runSelfTest(vdir, id, *tier, f)
+			applied, killed := 0, 0
+			var survivors []string
+			for _, x := range st {
+				if x.Applied {
+					applied++
+					if x.Killed {
+						killed++
+					} else {
+						survivors = append(survivors, x.Seed)
+					}
+				}
+			}
+			c.R.Extra["selftest"] = st
+			c.R.Extra["mutants"] = applied
+			c.R.Extra["mutants_killed"] = killed
+			if len(survivors) > 0 {
+				fmt.Printf("SELFTEST property=%s: seeded change(s) %v apply to the current tree but are not reported (checker gap, not a statement about /repo)\n", id, survivors)
+			}
+		}
 		if st := c.R.Finish(vdir, known, c.Floor); st > status {
 			status = st
 		}
